@@ -515,6 +515,29 @@ var mutations = []mutation{
 		s[i].KeyID = changeBytes(rng, s[i].KeyID)
 		return h, true
 	}},
+	{"commit.sig-keyid-signature-boundary-moved", func(rng *rand.Rand, h tmconsensus.Header) (tmconsensus.Header, bool) {
+		// the bytes of key id and signature stay the same in order; only the place where the
+		// key id ends moves ("0001"+"aabb" -> "00"+"01aabb" or "0001aa"+"bb")
+		k, ok := pickEntry(rng, h, 1)
+		if !ok {
+			return h, false
+		}
+		s := h.PrevCommitProof.Proofs[k]
+		i := rng.IntN(len(s))
+		all := append(append([]byte{}, s[i].KeyID...), s[i].Sig...)
+		if len(all) < 2 {
+			return h, false
+		}
+		cut := rng.IntN(len(all) + 1)
+		for tries := 0; cut == len(s[i].KeyID) && tries < 8; tries++ {
+			cut = rng.IntN(len(all) + 1)
+		}
+		if cut == len(s[i].KeyID) {
+			return h, false
+		}
+		s[i].KeyID, s[i].Sig = append([]byte{}, all[:cut]...), append([]byte{}, all[cut:]...)
+		return h, true
+	}},
 	{"commit.sig-bytes", func(rng *rand.Rand, h tmconsensus.Header) (tmconsensus.Header, bool) {
 		k, ok := pickEntry(rng, h, 1)
 		if !ok {
